@@ -29,7 +29,7 @@ RULE = (
     "(something was already in flight). One evaluation = one cancelled run."
 )
 ASSUMPTIONS = [
-    "cleanup (aclose of sources, exit callbacks) does not suspend: cancellation during cleanup is outside the property",
+    "aclose of sources does not suspend (a cancellation inside a generator's cleanup aborts its finally by language design); ExitStack exit handlers DO suspend and are cancelled too",
     "exactly one cancellation per run",
 ]
 
@@ -336,7 +336,7 @@ def stack_cases(draw, tier):
     entries = draw(st.lists(st.sampled_from(["acm", "scm", "push-async", "push-sync", "callback-async",
                                              "callback-sync"]), min_size=1, max_size=3))
     return {"op": "exitstack", "entries": entries, "body_susp": draw(st.integers(0, 2)),
-            "enter_susp": draw(st.integers(0, 1))}
+            "enter_susp": draw(st.integers(0, 1)), "exit_susp": draw(st.integers(0, 1))}
 
 
 def run_stack(case, cancel_at):
@@ -358,6 +358,8 @@ def run_stack(case, cancel_at):
 
         async def __aexit__(self, et, ev, tb):
             exits.append((self.i, ev))
+            for _ in range(case.get("exit_susp", 0)):
+                await ctx.suspend(("exit", self.i))
             return False
 
     class SCM:
@@ -381,6 +383,8 @@ def run_stack(case, cancel_at):
                 elif kind == "push-async":
                     async def aexit(et, ev, tb, i=i):
                         exits.append((i, ev))
+                        for _ in range(case.get("exit_susp", 0)):
+                            await ctx.suspend(("exit", i))
                         return False
                     stack.push(aexit)
                 elif kind == "push-sync":
@@ -391,6 +395,8 @@ def run_stack(case, cancel_at):
                 elif kind == "callback-async":
                     async def acb(tag, i=i):
                         exits.append((i, tag))
+                        for _ in range(case.get("exit_susp", 0)):
+                            await ctx.suspend(("exit", i))
                     stack.callback(acb, "cb")
                 else:
                     def scb(tag, i=i):
@@ -412,13 +418,24 @@ def run_stack(case, cancel_at):
     if sorted(ran) != sorted(registered) or ran != sorted(ran, reverse=True):
         raise Violation(f"C18/{kind}/exits-not-run-once-in-lifo-order",
                         f"cancel_at={cancel_at} registered={registered} ran={ran}", case=vcase)
+    # where did the cancellation land?  inside exit handler k => the exits invoked up to and
+    # including k saw the block end normally (None), the ones after it must receive the Cancel
+    hit = next((s_.origin for s_ in ctx.issued if s_.thrown is cancel), None)
+    in_exit = hit is not None and hit[0] == "exit"
+    seen_hit = not in_exit
     for i, ev in exits:
+        expect_cancel = seen_hit
+        if in_exit and i == hit[1]:
+            seen_hit = True
         if case["entries"][i].startswith("callback"):
             if ev != "cb":
                 raise Violation(f"C18/{kind}/callback-arguments", f"{i}: {ev!r}", case=vcase)
-        elif ev is not cancel:
+        elif expect_cancel and ev is not cancel:
             raise Violation(f"C18/{kind}/exit-did-not-receive-cancellation",
-                            f"cancel_at={cancel_at} exit {i} received {ev!r}", case=vcase)
+                            f"cancel_at={cancel_at} hit={hit} exit {i} received {ev!r}", case=vcase)
+        elif not expect_cancel and ev is not None:
+            raise Violation(f"C18/{kind}/exit-received-unexpected-exception",
+                            f"cancel_at={cancel_at} hit={hit} exit {i} received {ev!r}", case=vcase)
     return n
 
 
